@@ -48,6 +48,7 @@ package parser
 
 //@ family parser.infixParseFn.call(fn, left)
 //@   requires fn.fn != 0 && ParInv(asptr(fn.env, *Parser)) && asptr(fn.env, *Parser).curToken.Type != token.EOF
+//@   requires has(precedences, asptr(fn.env, *Parser).curToken.Type)
 //@   ensures ParStep(asptr(fn.env, *Parser), old(PD(asptr(fn.env, *Parser))), old(asptr(fn.env, *Parser).curToken.Type), old(len(asptr(fn.env, *Parser).errors)))
 //@   modifies asptr(fn.env, *Parser).curToken, asptr(fn.env, *Parser).peekToken, asptr(fn.env, *Parser).errors, asptr(fn.env, *Parser).useStmt, asptr(fn.env, *Parser).components, asptr(fn.env, *Parser).l.*, anyslice(*fail.Error), anyslice(*ast.ComponentStmt), anyslice(ast.Statement), anyslice(ast.Expression), anyslice(*ast.SlotStmt), anyslice(*ast.ElseIfStmt), anymap(map[string]*ast.InsertStmt), anymap(map[string]*ast.ReserveStmt), anymap(map[string]ast.Expression)
 //@   decreases PD(asptr(fn.env, *Parser)), 13
@@ -175,6 +176,7 @@ package parser
 //@ spec terminator(t token.TokenType) bool = t == token.RBRACES || t == token.SEMI || t == token.RPAREN
 
 //@ func (p *Parser) parseExpression
+//@   requires precedence >= LOWEST
 //@   decreases PD(p), 14
 //@   goal table.ternary: LOWEST < prec(token.QUESTION) && prec(token.QUESTION) == TERNARY && prec(token.QUESTION) < prec(token.EQ)
 //@   goal table.equality: prec(token.EQ) == prec(token.NOT_EQ) && prec(token.EQ) < prec(token.LTHAN)
@@ -208,7 +210,7 @@ package parser
 //@   loop 0: invariant ParInv(p) && PD(p) < old(PD(p)) && len(p.errors) >= old(len(p.errors)) && obj != nil && obj.Pairs != nil
 //@   loop 0: decreases PD(p)
 //@ func (p *Parser) parseInfixExp
-//@   requires p.curToken.Type != token.EOF
+//@   requires p.curToken.Type != token.EOF && has(precedences, p.curToken.Type)
 //@   call parseExpression#0: assert rhs-level: arg1 == prec(old(p.curToken.Type))
 //@   call parseExpression#0: bind rhs
 //@   goal node: result != nil ==> istype(result, *ast.InfixExp) && as(result, *ast.InfixExp).Left == left
